@@ -62,6 +62,7 @@ type fnCtx struct {
 	noOblige  int
 	noGlobalInit int
 	verCounter   int
+	preHeaps     bool
 	globalVals map[*ssa.Global]Val
 	globalSyms map[string]*ssa.Global
 }
